@@ -107,11 +107,21 @@ def make_data(ctx, with_atnums=True):
 def job_base():
     T = "iodata.inputs.common.write_input_base"
     led = Ledger()
-    for user_key in (None, "title", "spinmult", "charge", "geometry_extra", "lot"):
+    for user_key in (None, "title", "spinmult", "charge", "geometry_extra", "lot", "spinmult/no-spin-polarisation"):
         cfg = config()
+        nospin = user_key == "spinmult/no-spin-polarisation"
+        user_key = "spinmult" if nospin else user_key
 
-        def setup(ctx, interp, user_key=user_key):
+        def setup(ctx, interp, user_key=user_key, nospin=nospin):
             data, n = make_data(ctx, with_atnums=False)
+            if nospin:
+                # generalized orbitals have no spin polarisation (C12: the getter raises NotImplementedError)
+                mocls = source.import_repo("iodata.orbitals").MolecularOrbitals
+                mo = Obj(mocls, tag="mo")
+                for f in __import__("attrs").fields(mocls):
+                    mo.fields[f.name] = None
+                mo.fields["kind"] = "generalized"
+                data.fields["mo"] = mo
             line = z3.Function("atom_line", z3.IntSort(), U)
             calls = []
 
@@ -129,9 +139,14 @@ def job_base():
             fn = get_target("iodata.inputs.common:write_input_base")
             return fn, [fh, data, "TEMPLATE {title}", al, user], {}, dict(data=data, n=n, line=line, user=user, al=al, calls=calls)
 
-        def post(out, env, user_key=user_key):
+        def post(out, env, user_key=user_key, nospin=nospin):
             ctx, interp = out.ctx, out.interp
             data, n, line, user = env["data"], env["n"], env["line"], env["user"]
+            if nospin:
+                # "user-supplied ... keyword arguments taking precedence": the multiplicity is given, so the spin
+                # polarisation of the object is not needed and its absence must not prevent the file from being written
+                ctx.prove(f"{T}::post.a-given-spinmult-is-used-without-asking-the-object-for-its-spin-polarisation", out.kind != "raise" and any(e[0] == "print" and isinstance(e[2][0], Formatted) and e[2][0].fields.get("spinmult") is user["spinmult"] for e in ctx.trace))
+                return
             if out.kind == "raise":
                 ctx.prove(f"{T}::post.returns-normally-for-a-molecule-with-atoms-and-coordinates", False)
                 return
@@ -352,6 +367,20 @@ for it in range(nmol):
     fn = os.path.join(tmp, "inp2")
     write_input(d, fn, "gaussian", template="{title}|{lot}|{charge}|{myfield}", title="T", lot="L", charge=7, myfield="X", atom_line=lambda dd, i: f"A{i}")
     if open(fn).read().strip() != "T|L|7|X": fails.append((dict(it=it), "user fields do not take precedence", open(fn).read()))
+# a given charge / multiplicity takes precedence: the object's own value is then not needed, even when it cannot be computed
+from iodata.orbitals import MolecularOrbitals
+gen = IOData(atnums=[1, 1], atcoords=np.array([[0.0, 0, 0], [0, 0, 1.4]]), mo=MolecularOrbitals("generalized", None, None, occs=np.array([1.0, 1.0, 0.0, 0.0]), coeffs=np.eye(4)))
+nanq = IOData(atnums=[1, 1], atcoords=np.array([[0.0, 0, 0], [0, 0, 1.4]]), charge=float("nan"))
+for prog in ("gaussian", "orca"):
+    for name, obj, kw in (("spinmult given, generalized orbitals (no spin polarisation)", gen, dict(spinmult=1)), ("charge given, charge of the object is not a number", nanq, dict(charge=0))):
+        cases += 1
+        fn = os.path.join(tmp, "inp3")
+        try:
+            write_input(obj, fn, prog, **kw)
+            m = re.search(r"^(?:\*xyz )?(-?\d+) (\d+)$", open(fn).read(), re.M)
+            if not m or (int(m.group(1)), int(m.group(2))) != (0, 1): fails.append(((prog, name), "a given charge / multiplicity is not the one written"))
+        except Exception as exc:
+            fails.append(((prog, name, repr(exc.__cause__)[:80]), "a given charge / multiplicity does not take precedence: the object is still asked for its own"))
 sig = {}
 for f in fails: sig.setdefault(f[1], f)
 print(json.dumps(dict(cases=cases, nfails=len(fails), kinds={k: repr(v)[:400] for k, v in sig.items()}), default=str))
@@ -389,6 +418,23 @@ if buf.getvalue().strip() != "-1":
 """
 
 
+REPLAY_SPINMULT = """
+import sys, io
+import numpy as np
+from iodata import IOData
+from iodata.inputs.common import write_input_base
+from iodata.orbitals import MolecularOrbitals
+d = IOData(atnums=[1, 1], atcoords=np.zeros((2, 3)), mo=MolecularOrbitals("generalized", None, None, occs=np.array([1.0, 1.0]), coeffs=np.eye(2)))
+buf = io.StringIO()
+try:
+    write_input_base(buf, d, "{charge} {spinmult}", lambda dd, i: "", {"spinmult": 1})
+except Exception as exc:
+    print("spinmult=1 was given, but the object was still asked for its spin polarisation:", repr(exc))
+    print("REPRODUCED"); sys.exit(1)
+print("written:", buf.getvalue().strip())
+"""
+
+
 def run(chk):
     chk.functions += ["iodata.api.write_input (error contract)", "iodata.inputs.common.write_input_base", "iodata.inputs.gaussian.write_input", "iodata.inputs.gaussian.default_atom_line", "iodata.inputs.orca.write_input", "iodata.inputs.orca.default_atom_line", "iodata.periodic.num2sym (ground)"]
     chk.trusted += ["z3", "str.format / str.join / f-string rendering (contracts are stated on the fields handed to them)", "attrs.asdict(obj, recurse=False) = {field name: value}", "np.round = round half to even; int() = truncation; abs()", "dict lookup with a symbolic key = case split over the keys"]
@@ -402,5 +448,7 @@ def run(chk):
     for o in chk.ledger.obligations.values():
         if o.status == "refuted" and "charge-is-rounded" in o.name:
             chk.set_replay(o.name, REPLAY_CHARGE)
+        if o.status == "refuted" and "a-given-spinmult-is-used" in o.name:
+            chk.set_replay(o.name, REPLAY_SPINMULT)
     chk.samples = [o.as_dict() for o in list(chk.ledger.obligations.values())[:6]]
     chk.notes["explanation"] = "C19: field-level contracts of the input writers for all molecules, charges and spin settings"
